@@ -40,9 +40,139 @@ type c08Case struct {
 	// TriggerCut: fire a connection cut from inside a yield point (point, occurrence) and hold the library goroutine
 	TrigPoint string `json:"trig_point,omitempty"`
 	TrigOcc   int    `json:"trig_occ,omitempty"`
+	// Stale: subscriptions on a first connection, a cut, new subscriptions on the re-established connection, then the
+	// callers of some of the first generation cancel their (long dead) contexts
+	Stale *c08Stale `json:"stale,omitempty"`
+}
+
+type c08Stale struct {
+	Before     int `json:"before"`      // subscriptions of the first generation (1-4)
+	After      int `json:"after"`       // subscriptions opened after the reconnect (1-4)
+	CancelMask int `json:"cancel_mask"` // which first-generation contexts get cancelled afterwards
+	PlainCalls int `json:"plain_calls"` // unary calls issued before the first generation (shifts request ids against channel ids)
+}
+
+// runC08Stale: the second generation's channels must be unaffected by anything the owners of the first generation's
+// (already closed) channels do: they deliver every later value and close when their handler closes.
+func runC08Stale(c c08Case) (*Violation, string) {
+	st := c.Stale
+	rig, err := NewRig(RigOpts{BackoffMin: 5 * time.Millisecond, BackoffMax: 20 * time.Millisecond})
+	if err != nil {
+		return nil, "rig"
+	}
+	defer rig.Close()
+	cl, err := rig.NewClient("c")
+	if err != nil {
+		return nil, "client"
+	}
+	hooks.Reset(c.Rules...)
+	defer hooks.Off()
+	for i := 0; i < st.PlainCalls; i++ {
+		if err := rig.Probe(cl, 3*time.Second); err != nil {
+			return nil, "probe"
+		}
+	}
+	var first []*Pending
+	for i := 0; i < st.Before; i++ {
+		first = append(first, rig.Go(cl, "sub", rig.Tok("old"), Plan{N: 50, Early: 1, Pace: true, Linger: true}))
+	}
+	if out := AwaitReturn(first, 5*time.Second); len(out) > 0 {
+		return nil, "first generation did not subscribe"
+	}
+	for _, p := range first {
+		if p.Err != nil {
+			return violf("subscribe-failed", "subscription %s failed on a healthy connection: %v", p.Tok, p.Err), ""
+		}
+	}
+	rig.Proxy.CutAll("rst")
+	// every channel of the first generation closes (the property's own clause), and the client comes back
+	for _, p := range first {
+		deadline := time.After(4 * time.Second)
+	drain:
+		for {
+			select {
+			case _, ok := <-p.Ch:
+				if !ok {
+					break drain
+				}
+			case <-deadline:
+				return violf("channel-never-closed", "channel of %s still open 4s after its connection was reset", p.Tok), ""
+			}
+		}
+	}
+	healed := false
+	for t0 := time.Now(); time.Since(t0) < 5*time.Second; time.Sleep(5 * time.Millisecond) {
+		if rig.Probe(cl, time.Second) == nil {
+			healed = true
+			break
+		}
+	}
+	if !healed {
+		return nil, "no reconnect"
+	}
+	var second []*Pending
+	for i := 0; i < st.After; i++ {
+		second = append(second, rig.Go(cl, "sub", rig.Tok("new"), Plan{N: 6, Early: 1, Pace: true}))
+	}
+	if out := AwaitReturn(second, 5*time.Second); len(out) > 0 {
+		return violf("subscribe-hangs", "a subscribing call on the re-established connection did not return within 5s"), ""
+	}
+	recvN := func(p *Pending, from, n int, what string) *Violation {
+		for k := 0; k < n; k++ {
+			select {
+			case v, ok := <-p.Ch:
+				if !ok {
+					return violf("channel-closed-early", "channel of %s (opened after the reconnect) closed after %d of 6 values %s", p.Tok, from+k, what)
+				}
+				if v.Tok != p.Tok || v.Seq != from+k {
+					return violf("not-a-prefix", "channel of %s received %s/%d, expected seq %d", p.Tok, v.Tok, v.Seq, from+k)
+				}
+			case <-time.After(4 * time.Second):
+				return violf("stream-stalled", "channel of %s (opened after the reconnect) delivered %d of 6 values and then nothing for 4s %s", p.Tok, from+k, what)
+			}
+		}
+		return nil
+	}
+	for _, p := range second {
+		if p.Err != nil {
+			return violf("subscribe-failed", "subscription %s failed on the re-established connection: %v", p.Tok, p.Err), ""
+		}
+		rig.W.Tick(p.Tok, 1)
+		if v := recvN(p, 0, 2, "before anything else happened"); v != nil {
+			return v, ""
+		}
+	}
+	// the owners of the first generation now cancel their contexts
+	cancelled := 0
+	for i, p := range first {
+		if st.CancelMask&(1<<i) != 0 {
+			p.Cancel()
+			cancelled++
+		}
+	}
+	time.Sleep(30 * time.Millisecond)
+	what := fmt.Sprintf("after %d callers of subscriptions from the previous connection cancelled their contexts", cancelled)
+	for _, p := range second {
+		rig.W.Tick(p.Tok, 4)
+		if v := recvN(p, 2, 4, what); v != nil {
+			return v, ""
+		}
+		select {
+		case _, ok := <-p.Ch:
+			if ok {
+				return violf("invented-values", "channel of %s delivered more than the 6 values its handler sent", p.Tok), ""
+			}
+		case <-time.After(4 * time.Second):
+			return violf("channel-never-closed", "channel of %s (opened after the reconnect) still open 4s after its handler closed it, %s", p.Tok, what), ""
+		}
+	}
+	return nil, ""
 }
 
 func runC08(c c08Case) (*Violation, string) {
+	if c.Stale != nil {
+		return runC08Stale(c)
+	}
 	rig, err := NewRig(RigOpts{BackoffMin: 5 * time.Millisecond, BackoffMax: 20 * time.Millisecond})
 	if err != nil {
 		return nil, "rig"
@@ -306,6 +436,10 @@ func runC08(c c08Case) (*Violation, string) {
 
 func c08NT(c c08Case) (bool, []string) {
 	cl := []string{}
+	if c.Stale != nil {
+		cl = append(cl, "stale_owner_cancels")
+		return true, cl
+	}
 	for _, x := range c.Causes {
 		cl = append(cl, "cause_"+x)
 	}
@@ -350,13 +484,13 @@ func contains(s []string, x string) bool {
 	return false
 }
 
-const c08Rule = "1-3 paced subscriptions (length 0-40, early sends, k values delivered before the causes fire, consumer reading or stalled) x termination causes {handler closes, context cancelled, connection cut FIN/RST, client closed} alone and in racing pairs x positioned faults on the server->client frames of the stream (response, values, close notification; before/header/mid/last/after) x connection cuts triggered from inside the client's yield points (resp.found, chan.sink, closechans.begin, reconnect.begin, frame.read) with the library goroutine held for 2 ms. Non-trivial = two causes racing, or a fault between two values; distinct by descriptor hash"
+const c08Rule = "1-3 paced subscriptions (length 0-40, early sends, k values delivered before the causes fire, consumer reading or stalled) x termination causes {handler closes, context cancelled, connection cut FIN/RST, client closed} alone and in racing pairs x positioned faults on the server->client frames of the stream (response, values, close notification; before/header/mid/last/after) x connection cuts triggered from inside the client's yield points (resp.found, chan.sink, closechans.begin, reconnect.begin, frame.read) with the library goroutine held for 2 ms. histories across a reconnect: 1-4 subscriptions on the first connection, a reset, 1-4 new subscriptions on the re-established connection, then the owners of a subset of the first generation cancel their contexts (the second generation must deliver every later value and close with its handler). Non-trivial = two causes racing, or a fault between two values; distinct by descriptor hash"
 
 func TestC08(t *testing.T) {
 	rec := NewRec("C08", c08Rule)
 	defer rec.Finish(t)
 	rec.EnableJournal()
-	rec.RequireClass("handler_ignores_ctx", "cause_handler_close", "cause_ctx_cancel", "cause_cut_rst", "cause_client_close", "cause_fault", "racing_causes", "fault_between_values", "stalled_consumer", "trigger_resp.found")
+	rec.RequireClass("stale_owner_cancels", "handler_ignores_ctx", "cause_handler_close", "cause_ctx_cancel", "cause_cut_rst", "cause_client_close", "cause_fault", "racing_causes", "fault_between_values", "stalled_consumer", "trigger_resp.found")
 	run := func(ft failer, c c08Case) {
 		nt, cl := c08NT(c)
 		rec.Run(ft, c, nt, cl, func() *Violation {
@@ -378,6 +512,12 @@ func TestC08(t *testing.T) {
 		}
 		v, _ := runC08(c)
 		return v
+	})
+	t.Run("stale-owners", func(t *testing.T) {
+		for _, st := range []c08Stale{{1, 1, 1, 0}, {1, 1, 1, 3}, {2, 2, 3, 1}, {3, 1, 2, 0}, {2, 3, 0, 2}, {4, 4, 15, 5}} {
+			st := st
+			run(t, c08Case{Stale: &st})
+		}
 	})
 	t.Run("grid", func(t *testing.T) {
 		sh, nsh := shard()
@@ -451,6 +591,10 @@ func TestC08(t *testing.T) {
 		}
 		if len(c.Causes) == 0 && c.Fault == nil && c.TrigPoint == "" {
 			c.Causes = []string{"handler_close"}
+		}
+		if rapid.IntRange(0, 9).Draw(rt, "stalekind") == 0 {
+			nb := rapid.IntRange(1, 4).Draw(rt, "stale_before")
+			c = c08Case{Stale: &c08Stale{Before: nb, After: rapid.IntRange(1, 4).Draw(rt, "stale_after"), CancelMask: rapid.IntRange(0, 1<<nb-1).Draw(rt, "stale_mask"), PlainCalls: rapid.IntRange(0, 5).Draw(rt, "stale_plain")}}
 		}
 		nr := rapid.IntRange(0, 2).Draw(rt, "nrules")
 		for i := 0; i < nr; i++ {
